@@ -15,6 +15,7 @@ let op_of_json j =
   | JStr "io" :: _ -> IoDone
   | JStr "read" :: _ -> Read
   | JStr "delete" :: _ -> Delete
+  | JStr "advance" :: n :: _ -> Advance (jn n)
   | _ -> raise (Model_error "bad op")
 
 let json_of_res r =
@@ -52,4 +53,19 @@ let () = serve (fun fn req ->
     let s0 = start kd file expected in
     let log = run_log h384 h kd cb ops s0 in
     JArr (JArr [JStr "start"; observe s0] :: SL.map (fun (s, r) -> JArr [json_of_res r; observe s]) log)
+  | "announce" ->
+    (* {"ops":[["add",h,finished],["should",h],["single",h,immediate,now],["announced",h,now],["pending",h],["delete",h],
+               ["query",head_and_sd_only,now], ...]}  ->  one list of hash ids per query, evaluated where it stands *)
+    let t = Stdlib.ref [] in
+    let out = Stdlib.ref [] in
+    SL.iter (fun j -> match jlist j with
+      | JStr "query" :: hd :: now :: _ -> out := of_list of_n (to_announce (jbool hd) (jn now) !t) :: !out
+      | JStr "add" :: h :: f :: _ -> t := astep (AAdd (jn h, jbool f)) !t
+      | JStr "should" :: h :: _ -> t := astep (AShould (jn h)) !t
+      | JStr "single" :: h :: i :: now :: _ -> t := astep (ASingle (jn h, jbool i, jn now)) !t
+      | JStr "announced" :: h :: now :: _ -> t := astep (AAnnounced (jn h, jn now)) !t
+      | JStr "pending" :: h :: _ -> t := astep (ASetPending (jn h)) !t
+      | JStr "delete" :: h :: _ -> t := astep (ADelete (jn h)) !t
+      | _ -> raise (Model_error "bad announce op")) (jlist (jfield req "ops"));
+    JArr (SL.rev !out)
   | _ -> raise (Model_error ("unknown fn " ^ fn)))
